@@ -108,8 +108,8 @@ def compare(ctx, infr, infr2, inam2, e1, e2, mode, case, tag):
     if ssum.shape != H.shape[1:] or smean.shape != H.shape[1:]:
         ctx.violation('holo-shape-squashed', 'time-squashed holospectrum has shape %s / %s, expected %s' % (ssum.shape, smean.shape, H.shape[1:]), case)
         return
-    if np.any(np.abs(full - H) > tolH):
-        t, a, c = np.unravel_index(np.argmax(np.abs(full - H)), H.shape)
+    if np.any(np.isfinite(full) != np.isfinite(H)) or np.any(np.abs(full - H) > tolH):
+        t, a, c = np.unravel_index(np.argmax(np.where(np.isfinite(full) != np.isfinite(H), np.inf, np.nan_to_num(np.abs(full - H)))), H.shape)
         key = 'holo-full'
         if np.abs(np.swapaxes(full, 1, 2) - H).max() <= tol if full.shape[1] == full.shape[2] else False:
             key = 'holo-axes-swapped'
@@ -118,7 +118,7 @@ def compare(ctx, infr, infr2, inam2, e1, e2, mode, case, tag):
         ctx.violation(key, 'holospectrum[t=%d, am=%d, carrier=%d] = %.4g, brute force %.4g (carrier edges %s, AM edges %s, mode %s)'
                       % (t, a, c, full[t, a, c], H[t, a, c], np.round(e1, 3).tolist(), np.round(e2, 3).tolist(), mode), case)
         return
-    if np.any(np.abs(ssum - H.sum(axis=0)) > 1e-12 * Ha.sum(axis=0) + 1e-300):
+    if np.any(np.isfinite(ssum) != np.isfinite(H.sum(axis=0))) or np.any(np.abs(ssum - H.sum(axis=0)) > 1e-12 * Ha.sum(axis=0) + 1e-300):
         ctx.violation('holo-sum', "squash_time='sum' differs from the sum over time of the full output", case)
         return
     if np.any(np.abs(smean - H.mean(axis=0)) > 1e-12 * Ha.mean(axis=0) + 1e-300):
@@ -229,6 +229,16 @@ def run_shard(ctx):
             else:
                 infr2[rng.integers(0, T), rng.integers(0, M), rng.integers(0, K)] = np.nan
             ctx.count('cases_with_nan_frequencies')
+        if rng.random() < .12:
+            # an artefact blanked in amplitude AND frequency: a sample out of range contributes nothing, whatever its amplitude
+            t_, m_, k_ = int(rng.integers(0, T)), int(rng.integers(0, M)), int(rng.integers(0, K))
+            if rng.random() < .5:
+                infr2[t_, m_, k_] = float(gens.pick(rng, [e2[-1] + 1.0, e2[0] - 1.0, np.nan]))
+                inam2[t_, m_, k_] = float(gens.pick(rng, [np.nan, np.inf]))
+            else:
+                infr[t_, m_] = float(gens.pick(rng, [e1[-1] + 1.0, e1[0] - 1.0]))
+                inam2[t_, m_, :] = float(gens.pick(rng, [np.nan, np.inf]))
+            ctx.count('cases_with_non_finite_amplitude_out_of_range')
         if rng.random() < .15:
             # the unit of frequency is the caller's: the same recording and both bin sets in Hz for very slow / very fast processes
             u = float(gens.pick(rng, [1e-9, 1e-6, 1e6]))
